@@ -52,13 +52,27 @@ def intercept_function():
     real = ca.Function
     rec = {}
 
-    class Fake:
-        def __init__(self, name, ins, outs, *a, **k):
-            rec[name] = (list(ins), list(outs))
-            self._n = name
+    class Dummy:
+        """stands for a Function whose body contains a stub's opaque (free) symbol: calling it substitutes the arguments"""
+
+        def __init__(self, name, ins, outs):
+            self._n, self._ins, self._outs = name, list(ins), list(outs)
 
         def name(self):
             return self._n
+
+        def __call__(self, *args):
+            args = [ca.SX(a) if not isinstance(a, ca.SX) else a for a in args]
+            args = [a if a.shape == i.shape else ca.SX(i.sparsity(), a) if a.is_scalar() else a for a, i in zip(args, self._ins)]
+            res = ca.substitute(self._outs, self._ins, args)
+            return res[0] if len(res) == 1 else res
+
+    def Fake(name, ins, outs, *a, **k):
+        rec[name] = (list(ins), list(outs))
+        try:
+            return real(name, ins, outs, *a, **k)
+        except RuntimeError:  # free variables: the expression contains a stub's opaque symbol
+            return Dummy(name, ins, outs)
 
     ca.Function = Fake
     try:
